@@ -318,8 +318,9 @@ fn opt_ops() -> BoxedStrategy<Vec<OptOp>> {
         any::<u8>().prop_map(OptOp::Nan),
         any::<u8>().prop_map(OptOp::Inf),
         any::<u8>().prop_map(OptOp::Infinity),
-        any::<u16>().prop_map(OptOp::MaxDigits),
-        any::<u16>().prop_map(OptOp::MinDigits),
+        // mostly small, so that min == max and min == max + 1 occur
+        prop_oneof![3 => 0u16..=6, 1 => any::<u16>()].prop_map(OptOp::MaxDigits),
+        prop_oneof![3 => 0u16..=6, 1 => any::<u16>()].prop_map(OptOp::MinDigits),
         any::<i32>().prop_map(OptOp::PosBreak),
         any::<i32>().prop_map(OptOp::NegBreak),
         any::<bool>().prop_map(OptOp::Trim),
